@@ -26,6 +26,8 @@ mod point;
 mod range;
 mod select;
 mod truncate;
+#[cfg(plonk_verif)]
+mod verif_hooks;
 
 #[cfg(test)]
 mod tests;
